@@ -326,8 +326,8 @@ def shard_grid(args):
                 nontrivial_key=(label, children, first) if interesting and first else None,
                 sample=({"label": label, "children": children, "ops": [("write", first)]}
                         if interesting and first and transitions % 4001 == 0 else None))
-            acc.outcome((None if problem is None else problem[0], composite.utilisation,
-                         composite.allocation))
+            acc.outcome(problem[0] if problem else
+                        (composite.utilisation, composite.allocation))
             if problem:
                 report(acc, {**case, "ops": [("write", first)]}, problem + (0,))
                 continue
